@@ -39,7 +39,7 @@ for name, pid, patch, origin in items:
         continue
     sh("git -C %s apply %s" % (R, patch))
     try:
-        r = sh("cd %s && VERIF_REPO=%s ./check %s --no-evidence --tier quick" % (V, R, pid), timeout=3600)
+        r = sh("cd %s && VERIF_REPO=%s VERIF_JOBS=%s ./check %s --no-evidence --tier quick" % (V, R, os.environ.get("MUT_JOBS", "16"), pid), timeout=3600)
         out = r.stdout + r.stderr
     except subprocess.TimeoutExpired as e:
         out = "TIMEOUT"
